@@ -121,6 +121,8 @@ def gen_doc(rng, dup=False, max_paras=3):
             if rng.random() < 0.3:
                 out += "# free comment\n\n"
         names = rng.sample(NAMES, rng.randint(1, 4))
+        # the same field may be spelled differently in different paragraphs of one file (names are case-insensitive, spelling is kept)
+        names = [rng.choice([nm.upper(), nm.lower(), nm.swapcase()]) if rng.random() < 0.15 else nm for nm in names]
         if dup and rng.random() < 0.7:
             respell = lambda nm: rng.choice([nm, nm, nm.upper(), nm.lower(), nm.swapcase()])   # duplicates may differ in case
             names.insert(rng.randint(0, len(names)), respell(rng.choice(names)))
